@@ -1107,7 +1107,11 @@ func (e *Engine) applyContract(st *State, fr *Frame, callee *ssa.Function, args 
 			cargs = append(append([]Val{}, cargs...), st.freshVal(p.Type(), "ex_"+p.Name()))
 			st.noPre = false
 		}
+		// the places a callee's postcondition talks about are instantiation sites for facts the caller holds
+		saveLog := logSpecReads
+		logSpecReads = true
 		a := e.evalContract(st, ens, cargs, true)
+		logSpecReads = saveLog
 		st.assumeT(a)
 		if feasibleBefore && !e.inc.Sat(st.pc) {
 			// vacuity guard: a contract that cannot be satisfied at a reachable call site would silently end the path
